@@ -194,6 +194,24 @@ def mutate(wire, m):
         m2 = dict(m)
         m2.pop('refix')
         return refix_params_digest(mutate(wire, m2))
+    if m['t'] == 'namedigest':
+        # one more ParametersSha256DigestComponent somewhere in the Name of an Interest (an Interest has at most one)
+        try:
+            tree = tlv_tree(wire)
+        except tlvref.TlvError:
+            return wire
+        if len(tree) != 1 or tree[0]['t'] != 0x05 or not tree[0]['kids'] or tree[0]['kids'][0]['t'] != 0x07:
+            return wire
+        name = tree[0]['kids'][0]
+        if name['kids'] is None:
+            return wire
+        val = bytes.fromhex(m.get('hex', '')) or bytes(32)
+        if m.get('copy'):
+            have = [k for k in name['kids'] if k['t'] == 0x02]
+            if have:
+                val = have[0]['v']
+        name['kids'].insert(m.get('pos', 0) % (len(name['kids']) + 1), {'t': 0x02, 'v': val, 'kids': None})
+        return tree_bytes(tree)
     if m['t'] == 'sigext':
         for is_int in (False, True):
             try:
@@ -568,6 +586,12 @@ class SigWorld(World):
                     # strictness; the outcome equals stripping the signature, which that front-end permits by design
                     self.ambiguous += 1
                     continue
+                if is_int and recv.n_params_digest > 1 and orig is not None and orig.n_params_digest <= 1 \
+                        and flow['signer'] not in ('null', 'none'):
+                    self.violate('C02', 'forged-accepted', comp, 'extra-digest-component',
+                                 f'flow {fid}: an Interest whose Name got a second ParametersSha256DigestComponent in flight '
+                                 f'(so its name differs from the signed/expressed one) was accepted')
+                    continue
                 same = recv.signed_portion == orig.signed_portion and recv.sig_value == orig.sig_value
                 if is_int:
                     same = same and tlvref.params_digest_ok(recv)
@@ -645,6 +669,8 @@ def rand_mut(rng):
         return {'t': 'len', 'path': rng.randint(0, 40), 'd': rng.choice([-1, 1])}
     if x < 0.66:
         return {'t': 'sigext', 'hex': rng.choice(['00', '0000', 'ff', '3000', 'deadbeef']), 'refix': True}
+    if x < 0.71:
+        return {'t': 'namedigest', 'pos': rng.randint(0, 6), 'hex': rng.choice(['', 'ab' * 32, 'cd' * 31]), 'copy': rng.random() < 0.3}
     edit = rng.choice(['dup', 'del', 'swap', 'ins', 'ins', 'retype', 'empty', 'extend', 'shorten'])
     m = {'t': 'tlv', 'edit': edit, 'path': rng.randint(0, 40)}
     if edit == 'extend':
